@@ -224,6 +224,16 @@ func checkC11(p *Program, r *Report) {
 		r.Check(bad == 0, "closure "+shortFn(cf), p.Pos(cf.Pos()), fmt.Sprintf("%d writes, all to per-activation objects", nw), fmt.Sprintf("%d of %d writes may target memory not allocated by the creating activation", bad, nw))
 	}
 
+	// accepted idiom sync.Pool: exclusive only until Put
+	r.Rule("C11.pool", "E1 + CFG", "an object handed back to a sync.Pool is not used, returned or stored afterwards by the same activation", 0)
+	pm := poolMisuse(a)
+	for _, m := range pm {
+		r.Bad("sync.Pool use after Put: "+m[strings.Index(m, ": ")+2:], m[:strings.Index(m, ": ")], m)
+	}
+	if len(pm) == 0 {
+		r.OK("sync.Pool discipline", "", "no (*sync.Pool).Put followed by a use of the pooled object on read paths")
+	}
+
 	// legacy-once: in-place rewriters of loaded data are reachable only from Unmarshal
 	checkLegacyOnce(p, r)
 
@@ -394,6 +404,122 @@ func controlC11(fx *Program, r *Report) {
 		got := len(a.writes) > 0
 		r.Control("C11.nowrite", "sharedcache."+tc.m, got == tc.want, fmt.Sprintf("expected flagged=%v, got %d shared write(s)", tc.want, len(a.writes)))
 	}
+	for _, tc := range []struct {
+		m    string
+		want bool
+	}{{"IterPoolEarly", true}, {"IterPoolProper", false}} {
+		f := fx.Method(pkg, "T", tc.m)
+		if f == nil {
+			r.Control("C11.pool", "sharedcache."+tc.m, false, "method not found")
+			continue
+		}
+		a := newPts(fx)
+		sh := a.seedObj(kShared, "SHARED")
+		a.reachFn(f)
+		a.add(f.Params[0], sh)
+		a.solveWithClosures()
+		pm := poolMisuse(a)
+		r.Control("C11.pool", "sharedcache."+tc.m, (len(pm) > 0) == tc.want, fmt.Sprintf("expected flagged=%v, got %d use(s) after Put", tc.want, len(pm)))
+	}
 }
 
 func init() { controlFns["C11"] = controlC11 }
+
+// poolMisuse: an object handed back to a sync.Pool must not be used, returned
+// or stored afterwards by the same activation — after Put another goroutine
+// (or the next iterator) may own it. Checked intra-procedurally: from each
+// non-deferred (*sync.Pool).Put, no instruction reachable in the CFG may use a
+// value that may alias the argument.
+func poolMisuse(a *ptsAnalysis) []string {
+	var out []string
+	for _, f := range a.order {
+		instrsOf(f, func(b *ssa.BasicBlock, in ssa.Instruction) {
+			call, ok := in.(*ssa.Call)
+			if !ok || !calleeIs(call, "(*sync.Pool).Put") || len(call.Call.Args) < 2 {
+				return
+			}
+			objs := oset{}
+			for o := range a.val(call.Call.Args[1]) {
+				if o.kind != kFunc {
+					objs[o] = true
+				}
+			}
+			if len(objs) == 0 {
+				return
+			}
+			aliases := func(v ssa.Value) bool {
+				if v == nil {
+					return false
+				}
+				for o := range a.val(v) {
+					if objs[o] {
+						return true
+					}
+				}
+				return false
+			}
+			check := func(x ssa.Instruction) {
+				if x == in {
+					return
+				}
+				var ops []*ssa.Value
+				for _, op := range x.Operands(ops) {
+					if op != nil && *op != nil && pointerLike((*op).Type()) && aliases(*op) {
+						// loading the variable again is only a use if the loaded value is used; report uses that matter
+						switch x.(type) {
+						case *ssa.Return, *ssa.Store, *ssa.MapUpdate, ssa.CallInstruction, *ssa.Slice, *ssa.IndexAddr:
+							out = append(out, fmt.Sprintf("%s: %s uses an object after it was handed back to a sync.Pool at %s (in %s)",
+								a.p.Pos(x.Pos()), instrKind(x), a.p.Pos(in.Pos()), shortFn(f)))
+							return
+						}
+					}
+				}
+			}
+			idx := instrIndex(in)
+			for _, x := range b.Instrs[idx+1:] {
+				check(x)
+			}
+			seen := map[*ssa.BasicBlock]bool{}
+			var walk func(bb *ssa.BasicBlock)
+			walk = func(bb *ssa.BasicBlock) {
+				if seen[bb] {
+					return
+				}
+				seen[bb] = true
+				for _, x := range bb.Instrs {
+					check(x)
+				}
+				for _, s := range bb.Succs {
+					walk(s)
+				}
+			}
+			for _, s := range b.Succs {
+				walk(s)
+			}
+		})
+	}
+	sort.Strings(out)
+	return dedupStrings(out)
+}
+
+func instrKind(x ssa.Instruction) string {
+	switch x.(type) {
+	case *ssa.Return:
+		return "return"
+	case *ssa.Store:
+		return "store"
+	case ssa.CallInstruction:
+		return "call"
+	}
+	return fmt.Sprintf("%T", x)
+}
+
+func dedupStrings(s []string) []string {
+	var out []string
+	for i, x := range s {
+		if i == 0 || x != s[i-1] {
+			out = append(out, x)
+		}
+	}
+	return out
+}
